@@ -43,78 +43,250 @@ def generate(src):
 
 
 # ---------------------------------------------------------------------------------------
-# frame condition: who writes the modelled attributes
+# frame condition: who writes the modelled attributes, who can rebind a modelled method
 # ---------------------------------------------------------------------------------------
 import ast
 import glob
 import os
+import re
+
+ENV_ATTRS = ["freeEnergyHigh", "freeEnergyLow"]      # the tables the model is parametric in
+STATE_NAMES = ATTRS + ENV_ATTRS
+CLASS = "Thermodynamics"
+
+
+def _targets(n):
+    if isinstance(n, ast.Assign):
+        return n.targets
+    if isinstance(n, (ast.AugAssign, ast.AnnAssign)):
+        return [n.target]
+    if isinstance(n, (ast.For, ast.AsyncFor, ast.comprehension)):
+        return [n.target]
+    if isinstance(n, (ast.With, ast.AsyncWith)):
+        return [i.optional_vars for i in n.items if i.optional_vars is not None]
+    if isinstance(n, ast.Delete):
+        return n.targets
+    if isinstance(n, ast.NamedExpr):
+        return [n.target]
+    return []
 
 
 def _stores(node):
     """all attribute-store targets (ast.Attribute) below `node`"""
     out = []
     for n in ast.walk(node):
-        tg = []
-        if isinstance(n, ast.Assign):
-            tg = n.targets
-        elif isinstance(n, (ast.AugAssign, ast.AnnAssign)):
-            tg = [n.target]
-        elif isinstance(n, (ast.For, ast.AsyncFor)):
-            tg = [n.target]
-        elif isinstance(n, (ast.With, ast.AsyncWith)):
-            tg = [i.optional_vars for i in n.items if i.optional_vars is not None]
-        elif isinstance(n, ast.Delete):
-            tg = n.targets
-        for t in tg:
+        for t in _targets(n):
             for a in ast.walk(t):
                 if isinstance(a, ast.Attribute) and isinstance(a.ctx, (ast.Store, ast.Del)):
                     out.append(a)
     return out
 
 
+def _contexts(tree):
+    """node id -> (stack of enclosing ClassDef/FunctionDef/Lambda nodes, outermost first)"""
+    ctx = {}
+
+    def walk(n, stack):
+        ctx[id(n)] = stack
+        inner = stack + [n] if isinstance(n, (ast.ClassDef, ast.FunctionDef,
+                                              ast.AsyncFunctionDef, ast.Lambda)) else stack
+        for c in ast.iter_child_nodes(n):
+            walk(c, inner)
+    walk(tree, [])
+    return ctx
+
+
+def _is_func(n):
+    return isinstance(n, (ast.FunctionDef, ast.AsyncFunctionDef))
+
+
 def frame_facts(repo_src_dir):
-    """Facts about every writer of the 16 modelled attributes in src/WallGo: the theorems are
-    about the state right after setExtrapolate, so no other method of the class, no subclass
-    and no other module may assign them."""
-    writers = {}
-    foreign, dynamic = [], []
+    """Facts about every file under src/WallGo, consumed by two theorems of Props/C10.v.
+
+    The theorems are about the state right after setExtrapolate read by the 15 translated
+    methods, so (a) no other method of the class, no function outside it, no subclass and no
+    other module may assign one of the 16 modelled attributes or rebind the two free-energy
+    members, by an attribute store on ANY base expression or by dynamic access that can reach a
+    Thermodynamics object; (b) nothing may rebind a method of the class: on the instance
+    (`self.csqLowT = cache(self.csqLowT)`), on the class from outside its body
+    (`Thermodynamics.csqLowT = ...`), in a subclass, or through a base class other than object.
+
+    A store `self.X = ...` inside a method of a class that is not (derived from) Thermodynamics
+    is that class's own attribute and is not counted (Hydrodynamics keeps its own TMinHighT...).
+    """
+    import pyrx
     files = sorted(glob.glob(os.path.join(repo_src_dir, "**", "*.py"), recursive=True))
-    for path in files:
-        rel = os.path.relpath(path, repo_src_dir)
-        tree = ast.parse(open(path).read())
-        for n in ast.walk(tree):
-            if isinstance(n, ast.Call) and isinstance(n.func, ast.Name) and \
-                    n.func.id in ("setattr", "delattr", "vars", "exec", "eval"):
-                dynamic.append("%s:%d: %s" % (rel, n.lineno, ast.unparse(n)[:60]))
-            if isinstance(n, ast.Attribute) and n.attr == "__dict__":
-                dynamic.append("%s:%d: %s" % (rel, n.lineno, ast.unparse(n)[:60]))
-        for cls in [c for c in ast.walk(tree) if isinstance(c, ast.ClassDef)]:
-            is_thermo = rel == "thermodynamics.py" and cls.name == "Thermodynamics"
-            derives = any("Thermodynamics" in ast.unparse(b) for b in cls.bases)
-            for f in cls.body:
-                if not isinstance(f, (ast.FunctionDef, ast.AsyncFunctionDef)):
-                    continue
-                for a in _stores(f):
-                    if a.attr in ATTRS and isinstance(a.value, ast.Name) and a.value.id == "self":
-                        if is_thermo:
-                            writers.setdefault(f.name, [])
-                            if a.attr not in writers[f.name]:
-                                writers[f.name].append(a.attr)
-                        elif derives:
-                            foreign.append("%s:%d: %s.%s writes self.%s" % (
-                                rel, a.lineno, cls.name, f.name, a.attr))
+    trees = {os.path.relpath(p, repo_src_dir): ast.parse(open(p).read()) for p in files}
+    # names under which the class is known anywhere in the package (import ... as, X = Thermodynamics)
+    alias = {CLASS}
+    for _ in range(3):
+        for tree in trees.values():
+            for n in ast.walk(tree):
+                if isinstance(n, ast.ImportFrom):
+                    alias |= {a.asname for a in n.names if a.name in alias and a.asname}
+                elif isinstance(n, ast.Assign) and isinstance(n.value, (ast.Name, ast.Attribute)) \
+                        and ast.unparse(n.value).split(".")[-1] in alias:
+                    alias |= {t.id for t in n.targets if isinstance(t, ast.Name)}
+    word = re.compile(r"\b(%s)\b" % "|".join(sorted(re.escape(a) for a in alias)))
+    names_class = lambda node: bool(word.search(ast.unparse(node)))
+    # classes derived (transitively, by name) from Thermodynamics
+    derived = set()
+    for _ in range(4):
+        for tree in trees.values():
+            for c in ast.walk(tree):
+                if isinstance(c, ast.ClassDef) and any(
+                        names_class(b) or ast.unparse(b).split(".")[-1] in derived
+                        for b in c.bases):
+                    derived.add(c.name)
+    thermo_methods = []
+    for n in trees.get("thermodynamics.py", ast.Module(body=[], type_ignores=[])).body:
+        if isinstance(n, ast.ClassDef) and n.name == CLASS:
+            thermo_methods = [f.name for f in n.body if _is_func(f)]
+    method_names = set(thermo_methods) | set(METHODS) | {"setExtrapolate"}
+
+    writers, env_writers = {}, {}
+    foreign, dynamic, shadow, notes = [], [], [], []
+    for rel, tree in trees.items():
+        ctxs = _contexts(tree)
+        in_thermo_file = rel == "thermodynamics.py"
+        thermo_cls = None
+        if in_thermo_file:
+            for n in tree.body:
+                if isinstance(n, ast.ClassDef) and n.name == CLASS:
+                    thermo_cls = n
+        where = lambda n: "%s:%d" % (rel, n.lineno)
+
+        def owner(node):
+            """('thermo', method) if `self` at `node` is an instance of the class itself seen from
+            one of its own methods; ('derived', cls); ('other', cls) for a method of an unrelated
+            class; ('none', None) outside any class method (module-level function, nested
+            function, lambda, class body)"""
+            stack = ctxs[id(node)]
+            if len(stack) == 2 and isinstance(stack[0], ast.ClassDef) and _is_func(stack[1]) \
+                    and stack[1] in stack[0].body and stack[1].args.args \
+                    and stack[1].args.args[0].arg == "self":
+                c = stack[0]
+                if c is thermo_cls:
+                    return "thermo", stack[1].name
+                if c.name in derived or (in_thermo_file and c.name == CLASS):
+                    return "derived", c.name
+                return "other", c.name
+            for c in stack:
+                if isinstance(c, ast.ClassDef) and (c.name in derived or c is thermo_cls):
+                    return "derived", c.name
+            cls = [c for c in stack if isinstance(c, ast.ClassDef)]
+            fns = [c for c in stack if not isinstance(c, ast.ClassDef)]
+            if cls and fns and fns[0] in cls[-1].body and len(cls) == 1 and \
+                    stack[0] is cls[0] and not in_thermo_file:
+                # closure nested in a method of an unrelated class: `self` is still that
+                # class's instance
+                return "other", cls[0].name
+            return "none", None
+
+        def reaches(target, node):
+            """can the object `target` (an expression) be a Thermodynamics instance/class?"""
+            kind, _ = owner(node)
+            if in_thermo_file or kind in ("thermo", "derived"):
+                return True
+            txt = ast.unparse(target) if target is not None else ""
+            return bool(re.search(r"thermo", txt, re.I)) or names_class(target) \
+                if target is not None else False
+
+        # --- the class itself and its subclasses ---------------------------------------
+        for c in ast.walk(tree):
+            if not isinstance(c, ast.ClassDef):
+                continue
+            if c is thermo_cls:
+                for b in c.bases:
+                    if ast.unparse(b) != "object":
+                        shadow.append("%s: class %s has the base class %s" % (
+                            where(c), CLASS, ast.unparse(b)))
+            elif c.name in derived or (in_thermo_file and c.name == CLASS):
+                for f in c.body:
+                    nm = [f.name] if _is_func(f) or isinstance(f, ast.ClassDef) else \
+                        [t.id for t in _targets(f) if isinstance(t, ast.Name)]
+                    for x in nm:
+                        if x in method_names or x in pyrx.HOOK_METHODS or x in STATE_NAMES:
+                            shadow.append("%s: class %s(%s) overrides %s" % (
+                                where(f), c.name, ", ".join(ast.unparse(b) for b in c.bases), x))
+        # --- attribute stores ---------------------------------------------------------------
         for a in _stores(tree):
-            if a.attr in ATTRS and not (isinstance(a.value, ast.Name) and a.value.id == "self"):
-                foreign.append("%s:%d: %s" % (rel, a.lineno, ast.unparse(a)))
+            kind, who = owner(a)
+            self_base = isinstance(a.value, ast.Name) and a.value.id == "self"
+            own_other = self_base and kind == "other"     # another class's own attribute
+            desc = "%s: %s%s" % (where(a), ast.unparse(a),
+                                 " in %s.%s" % (CLASS, who) if kind == "thermo" else
+                                 " in class %s" % who if who else "")
+            if a.attr in STATE_NAMES and not own_other:
+                if kind == "thermo" and self_base:
+                    d = writers if a.attr in ATTRS else env_writers
+                    d.setdefault(who, [])
+                    if a.attr not in d[who]:
+                        d[who].append(a.attr)
+                else:
+                    foreign.append(desc)
+            if not own_other and (
+                    (a.attr in method_names and (self_base and kind != "other" or
+                                                 reaches(a.value, a)))
+                    or names_class(a.value)):
+                # self.<method> = ..., Thermodynamics.<anything> = ..., thermo.<method> = ...
+                shadow.append(desc + " rebinds a method / patches the class")
+        # --- dynamic access -----------------------------------------------------------------
+        for n in ast.walk(tree):
+            if isinstance(n, ast.Call):
+                fn = n.func
+                nm = fn.id if isinstance(fn, ast.Name) else \
+                    fn.attr if isinstance(fn, ast.Attribute) else None
+                lit = [x.value for x in n.args[:2] if isinstance(x, ast.Constant)
+                       and isinstance(x.value, str)]
+                txt = "%s: %s" % (where(n), ast.unparse(n)[:70])
+                if isinstance(fn, ast.Name) and nm in ("setattr", "delattr", "vars"):
+                    tgt = n.args[0] if n.args else None
+                    if reaches(tgt, n) or any(x in STATE_NAMES or x in method_names for x in lit):
+                        dynamic.append(txt)
+                    else:
+                        notes.append(txt)
+                elif isinstance(fn, ast.Attribute) and nm in ("__setattr__", "__delattr__"):
+                    # object.__setattr__(self, name, v) / type(x).__setattr__(x, ...)
+                    tgt = n.args[0] if n.args else None
+                    if reaches(tgt, n) or reaches(fn.value, n) or \
+                            any(x in STATE_NAMES or x in method_names for x in lit):
+                        dynamic.append(txt)
+                    else:
+                        notes.append(txt)
+                elif isinstance(fn, ast.Name) and nm in ("exec", "eval"):
+                    src = " ".join(x.value for x in ast.walk(n) if isinstance(x, ast.Constant)
+                                   and isinstance(x.value, str))
+                    if reaches(None, n) or re.search(r"thermo", src, re.I) or any(
+                            re.search(r"\b%s\b" % re.escape(x), src)
+                            for x in list(STATE_NAMES) + sorted(method_names)):
+                        dynamic.append(txt)
+                    else:
+                        notes.append(txt)
+                for k in n.keywords:
+                    if k.arg in STATE_NAMES:
+                        dynamic.append("%s: keyword %s= in %s" % (where(n), k.arg,
+                                                                  ast.unparse(n)[:50]))
+            elif isinstance(n, ast.Attribute) and n.attr == "__dict__":
+                txt = "%s: %s" % (where(n), ast.unparse(n)[:70])
+                (dynamic if reaches(n.value, n) else notes).append(txt)
+            elif isinstance(n, ast.Constant) and isinstance(n.value, str) and \
+                    n.value in STATE_NAMES:
+                dynamic.append("%s: the string %r names a modelled attribute" % (where(n),
+                                                                                 n.value))
     q = lambda s: '"%s"' % s.replace('"', "'")
     lst = lambda l: "[" + "; ".join(q(x) for x in l) + "]"
+    pairs = lambda d: "[%s]" % "; ".join("(%s, %s)" % (q(m), lst(a)) for m, a in sorted(d.items()))
     text = "\n".join([
         "(* generated: writers of the modelled attributes of Thermodynamics in src/WallGo *)",
         "From Coq Require Import String List. Import ListNotations. Open Scope string_scope.",
         "Definition modelled_attrs : list string := %s." % lst(ATTRS),
-        "Definition writers : list (string * list string) := [%s]." % "; ".join(
-            "(%s, %s)" % (q(m), lst(a)) for m, a in sorted(writers.items())),
+        "Definition writers : list (string * list string) := %s." % pairs(writers),
+        "Definition env_writers : list (string * list string) := %s." % pairs(env_writers),
         "Definition foreign_writers : list string := %s." % lst(sorted(set(foreign))),
         "Definition dynamic_writes : list string := %s." % lst(sorted(set(dynamic))),
+        "Definition method_rebindings : list string := %s." % lst(sorted(set(shadow))),
         ""])
-    return text, dict(writers=writers, foreign=foreign, dynamic=dynamic, files=len(files))
+    return text, dict(writers=writers, env_writers=env_writers, foreign=sorted(set(foreign)),
+                      dynamic=sorted(set(dynamic)), shadow=sorted(set(shadow)),
+                      notes=sorted(set(notes)), files=len(files))
